@@ -12,7 +12,7 @@ EVIDENCE_DIR = os.environ.get('VF_EVIDENCE_DIR') or os.path.join(common.VERIF, '
 REPLAY_DIR = os.path.join(EVIDENCE_DIR, 'replay')
 KNOWN_FILE = os.path.join(common.VERIF, 'known_findings.txt')
 
-TIER_BUDGET = {'quick': 150.0, 'thorough': 1500.0}
+TIER_BUDGET = {'quick': 900.0, 'thorough': 2700.0}   # generous: the workloads are sized for ~30-60 s / ~10-25 min on an idle 16-core box
 
 
 def load_known():
